@@ -104,10 +104,12 @@ pub struct Mode {
     pub r: bool,
     /// no sign assumptions at all (C15 hostile family)
     pub hostile: bool,
+    /// quantities and ratios without sign assumptions, money fields still >= 0
+    pub hostile_q: bool,
 }
 impl Mode {
     pub fn parse(s: &str) -> Mode {
-        Mode { q: s.contains('Q'), p: s.contains('P'), f: s.contains('F'), r: s.contains('R'), hostile: s.contains('H') }
+        Mode { q: s.contains('Q'), p: s.contains('P'), f: s.contains('F'), r: s.contains('R'), hostile: s.contains('H'), hostile_q: s.contains('Z') }
     }
 }
 
@@ -128,7 +130,7 @@ pub fn instantiate(sk: &Skeleton, key: &str, mode: &Mode) -> Vec<Line> {
         let mk = |on: bool, pre: &str, dflt: Decimal, strict: bool| -> Decimal {
             if on {
                 let v = vx::fresh(&format!("{pre}{name}"));
-                if !mode.hostile {
+                if !(mode.hostile || (mode.hostile_q && strict)) {
                     if strict {
                         vx::assume(&vx::gt(v, zero));
                     } else {
@@ -165,13 +167,7 @@ pub fn instantiate(sk: &Skeleton, key: &str, mode: &Mode) -> Vec<Line> {
 }
 
 fn cur(s: &str) -> Currency {
-    match s {
-        "GBP" => Currency::GBP,
-        "USD" => Currency::USD,
-        "EUR" => Currency::EUR,
-        "JPY" => Currency::JPY,
-        o => panic!("currency {o} not in the palette"),
-    }
+    Currency::from_code(s).unwrap_or_else(|| panic!("currency {s} unknown to iso_currency"))
 }
 
 pub fn ca(amount: Decimal, c: Currency) -> CurrencyAmount {
